@@ -1,6 +1,7 @@
 import Driver.Util
 import Driver.OpsEdit
 import DoviModel.Model.CView
+import DoviModel.Model.RpuFile
 /-! Model side of the C API ops (C20): `capi.view`, `capi.seq`, `rpu.ops3`. -/
 namespace Driver.CapiOps
 open Dovi Driver
@@ -82,7 +83,18 @@ def seqKeep (asView : Bool) (h ops : String) : String :=
     let rcss := if rcs.isEmpty then "-" else ",".intercalate (rcs.map toString)
     s!"ok {rcss} e={if e then 1 else 0} " ++ (if asView then (cview cur).toJson.render else cur.toJson.render)
 
+/-- `capi.list` / `rpu.filelist`: the RPU file parser, then every RPU written raw -/
+def fileList (h : String) : String :=
+  match RpuFile.parseRpuFile 100000 (unhex h) with
+  | .error => "err"
+  | .panic => "panic"
+  | .ok rpus =>
+    let outs := rpus.map fun r => wstr (writeRpu r)
+    s!"ok {rpus.length} " ++ (if outs.isEmpty then "-" else ",".intercalate outs)
+
 def run : List String → String
+  | ["capi.list", h] => fileList h
+  | ["rpu.filelist", h] => fileList h
   | ["capi.seqview", h, ops] => seqKeep true h ops
   | ["rpu.ops3json", h, ops] => seqKeep false h ops
   | ["capi.view", entry, h] => view entry (unhex h)
